@@ -298,6 +298,14 @@ def main():
     for ident in SHAPESETS:
         run.add("%s_shapeset.h==shapesets.py" % ident, "post", ob_shapeset, ident)
     run.add("bempp_base_types.h::constants", "table", ob_constants)
+    # "to the precision of the type": the identities above are real-arithmetic; the Numba reference kernels themselves are compared natively with the closed forms at
+    # extreme scales (cancellation, clamps), in double precision
+    from checks import c03 as _c03
+    from specs import kernels as _KS
+
+    for key in sorted(nb_keys):
+        if key in _KS.SPEC:
+            run.add("numba.%s::float-level(extreme scales)" % key, "bounded", _c03.ob_extreme_scales, key, "regular")
     if run.tier == "thorough":
         # trusted-base reduction shared by every kernel property (C01-C08, C20): the compiled Numba functions agree with the source the proofs are about
         from vlib import jitdiff
